@@ -123,7 +123,7 @@ theorem decSet_encSet (o : Option GearSet) (h : ∀ g, o = some g → SetOK g) :
       (by intro s hs x hx; simp [emptySet] at hs; rw [hs] at hx; cases hx) (by decide)
     simpa [encSet, emptySet] using this
   | some g =>
-    obtain ⟨hne, hlen, hnul, hs, hok, hf⟩ := h g rfl
+    obtain ⟨hne, hlen, hnul, hs, hok, hf, _⟩ := h g rfl
     rw [encSet, decSet_encSome g hlen hnul hs hok hf, if_neg hne]
 
 theorem xor_key_twice (l : Bytes) : (l.map (· ^^^ key)).map (· ^^^ key) = l := by
